@@ -28,7 +28,7 @@ EXPLANATION = (
     "_add; run_program installs director.filter_error before run_bytecode; R3.3 filter_error is true iff "
     "the line is in none of _ignore, _disables['*'], _disables[error.name] (truth table); R3.4 per-line "
     "entries win over ranges; R3.5 every raw comment seeds a base LineRange group, groups are extended "
-    "before deletion, base ranges are never skipped, every comment is dispatched; R3.6 regex ASTs of "
+    "before deletion (or popped straight into the absorbing list), base ranges are never skipped, every comment is dispatched; R3.6 regex ASTs of "
     "_DIRECTIVE_RE / IGNORE_RE and the disable/enable wiring; R3.7 a trailing directive registers only its "
     "own line (violated by design: D16); R3.8 nothing is logged before the filter exists (known finding); "
     "R3.9 def-use over filter_error: every membership test on a _LineSet table of the Director is keyed by "
@@ -194,7 +194,14 @@ def _arms(mod, qual):
   if len(ifs) != 1 or src(ifs[0].test) not in ("open_ended", "not open_ended"):
     raise AnalysisError(f"{qual}: expected one `if open_ended` split")
   st = ifs[0]
-  arms = (st.body, st.orelse) if src(st.test) == "open_ended" else (st.orelse, st.body)
+  body, orelse = st.body, st.orelse
+  if not orelse and flow.terminates(body):
+    # guard-clause form: `if c: ...; continue` followed by the other arm
+    par = mod.parent[st]
+    for blk in (getattr(par, f, None) for f in ("body", "orelse", "finalbody")):
+      if isinstance(blk, list) and st in blk:
+        orelse = blk[blk.index(st) + 1:]
+  arms = (body, orelse) if src(st.test) == "open_ended" else (orelse, body)
   if not qual.endswith("_process_disable"):
     return fn, st, arms[0], arms[1], "self._ignore", "True", None
   loop = st
@@ -579,6 +586,17 @@ def r3_5(ctx):
     ctx.check(key in (f.before.get(n) or ()), f"{q}:del[{key}]", PAR, n.lineno,
               f"group {key} is deleted without `{ng}.extend({GROUPS}[{key}])` on every path before it: "
               "its directives are lost", {"extended": sorted(f.before.get(n) or ())})
+  # `<new>.extend(groups.pop(k))` removes and keeps in one step; any other pop loses the group
+  for c in calls_in(fn, name=f"{GROUPS}.pop"):
+    if len(c.args) != 1 or c.keywords:
+      raise AnalysisError(f"{q}: `{src(c)}` - pop with a default is not understood")
+    key, par = src(c.args[0]), mod.parent.get(c)
+    kept = isinstance(par, ast.Call) and dotted(par.func) == f"{ng}.extend" and par.args == [c] \
+        or isinstance(par, ast.AugAssign) and isinstance(par.op, ast.Add) and dotted(par.target) == ng \
+        and par.value is c
+    ctx.check(kept, f"{q}:del[{key}]", PAR, c.lineno,
+              f"group {key} is popped from {GROUPS} but its comments are not added to `{ng}`: "
+              "its directives are lost", {"popped_into": src(par)[:80] if par is not None else None})
   # Director side: base ranges are never skipped, every comment is dispatched
   dmod = get_module(ctx, DIR)
   keep = dmod.func("Director._process_disable.keep")
@@ -666,6 +684,45 @@ def _ws(item):
       (sc.IN, [(sc.CATEGORY, sc.CATEGORY_SPACE)])] else None
 
 
+class _NoValue(Exception):
+  pass
+
+
+def _ceval(node, env):
+  """Value of a constant expression over the names in env (comparisons, not/and/or)."""
+  if isinstance(node, ast.Constant):
+    return node.value
+  if isinstance(node, ast.Name) and node.id in env:
+    return env[node.id]
+  if isinstance(node, (ast.Tuple, ast.List, ast.Set)):
+    return tuple(_ceval(e, env) for e in node.elts)
+  if isinstance(node, ast.UnaryOp) and isinstance(node.op, ast.Not):
+    return not _ceval(node.operand, env)
+  if isinstance(node, ast.BoolOp):
+    vals = [_ceval(v, env) for v in node.values]
+    return all(vals) if isinstance(node.op, ast.And) else any(vals)
+  if isinstance(node, ast.IfExp):
+    return _ceval(node.body if _ceval(node.test, env) else node.orelse, env)
+  if isinstance(node, ast.Compare):
+    left = _ceval(node.left, env)
+    for op, right in zip(node.ops, node.comparators):
+      right = _ceval(right, env)
+      if isinstance(op, (ast.Eq, ast.NotEq)):
+        r = (left == right) == isinstance(op, ast.Eq)
+      elif isinstance(op, (ast.In, ast.NotIn)):
+        r = (left in right) == isinstance(op, ast.In)
+      elif isinstance(op, (ast.Is, ast.IsNot)) and (left is None or right is None or
+                                                    isinstance(left, bool) or isinstance(right, bool)):
+        r = (left is right) == isinstance(op, ast.Is)
+      else:
+        raise _NoValue(src(node))
+      if not r:
+        return False
+      left = right
+    return True
+  raise _NoValue(src(node))
+
+
 @rule("R3.6", "C03", floor=8)
 def r3_6(ctx):
   """Directive syntax and the disable/enable wiring."""
@@ -708,20 +765,37 @@ def r3_6(ctx):
   # disable/enable wiring
   dmod = get_module(ctx, DIR)
   fn = dmod.func("Director._process_pytype")
-  table = {n.test.comparators[0].value: n for n in walk_no_nested(fn)
-           if isinstance(n, ast.If) and isinstance(n.test, ast.Compare) and src(n.test.left) == "command"
-           and isinstance(n.test.ops[0], ast.Eq) and isinstance(n.test.comparators[0], ast.Constant)}
-  if not table:
-    raise AnalysisError("_process_pytype: command dispatch chain not found")
   callee = dmod.func("Director._process_disable")
-  for cmd, flag in (("disable", "True"), ("enable", "False")):
-    calls = [c for s in table[cmd].body for c in calls_in(s)] if cmd in table else []
-    pd = [c for c in calls if dotted(c.func) == "self._process_disable"]
-    b = _bind(pd[0], callee) if len(pd) == 1 else {}
-    ctx.check(len(calls) == len(pd) == 1 and b.get("disable") == flag and set(b) == set(_params(callee)[1:])
+  if "command" not in flow.names_in(fn) or "command" in _params(fn):
+    raise AnalysisError("_process_pytype: the `command` local was not found")
+  pds = [c for c in calls_in(fn) if dotted(c.func) == "self._process_disable"]
+  if not pds:
+    raise AnalysisError("_process_pytype: no call of self._process_disable")
+  for cmd, flag in (("disable", True), ("enable", False)):
+    env = {"command": cmd}
+    reached = []
+    for c in pds:
+      sat = True
+      for t, pol in _guards(dmod, c):
+        if "command" not in flow.names_in(t):
+          continue
+        try:
+          sat = sat and bool(_ceval(t, env)) == pol
+        except _NoValue:
+          raise AnalysisError(f"_process_pytype: guard `{src(t)}` on the command not understood")
+      if sat:
+        reached.append(c)
+    b = _bind(reached[0], callee) if len(reached) == 1 else {}
+    got = None
+    if "disable" in b:
+      try:
+        got = _ceval(ast.parse(b["disable"], mode="eval").body, env)
+      except _NoValue:
+        raise AnalysisError(f"_process_pytype: disable={b['disable']} not understood")
+    ctx.check(len(reached) == 1 and got is flag and set(b) == set(_params(callee)[1:])
               and all(b[p] == p for p in ("line", "line_range", "open_ended")),
-              f"Director._process_pytype:{cmd}", DIR, table[cmd].lineno if cmd in table else fn.lineno,
-              f"command {cmd!r} runs {[src(c) for c in calls]}; expected one "
+              f"Director._process_pytype:{cmd}", DIR, reached[0].lineno if reached else fn.lineno,
+              f"command {cmd!r} runs {[src(c) for c in reached]}; expected one "
               f"_process_disable(line, line_range, open_ended, <names>, disable={flag})", {"args": b})
 
 
@@ -1210,6 +1284,14 @@ VARIANTS = [
        "in raw_structured_comments.items()\n        if not structured_comments[0].open_ended\n    )"),
     _v("seed-as-call-range", "R3.5", PAR, _SEED, "(Call(lineno, lineno), list(structured_comments))"),
     _v("merge-drops-absorbed-group", "R3.5", PAR, _EXT, ""),
+    _v("merge-pops-absorbed-group-unkept", "R3.5", PAR,
+       _EXT + "      del self.structured_comment_groups[k]\n",
+       "      self.structured_comment_groups.pop(k)\n"),
+    # the order half of this patch is C15's R15.23; R3.5 must read the pop() idiom, not give up
+    {"name": "twin-seeded-C15-r2m2-pop-idiom", "rule": "R3.5", "patch": "seeded/C15-r2m2/patch.diff",
+     "expect": "silent"},
+    _v("twin-merge-extend-pop", "R3.5", PAR, _EXT + "      del self.structured_comment_groups[k]\n",
+       "      new_group.extend(\n          self.structured_comment_groups.pop(k))\n", "silent"),
     _v("moved-groups-deleted", "R3.5", PAR, "      self.structured_comment_groups.move_to_end(k)\n",
        "      del self.structured_comment_groups[k]\n"),
     _v("base-range-skipped", "R3.5", DIR, "      else:\n        return True\n\n    if not values:",
